@@ -773,3 +773,113 @@ pub fn f64_probe(ops: &[(Op, Fault)], variant: u64) -> Option<String> {
     }
     None
 }
+
+
+/// Properties wider than an f32 can hold exactly: 64-bit integers above 2^24 and f64 values that
+/// are not f32 values. An animation that is over rests on the terminal keyframe's values (C07) -
+/// to the precision `Lerp` documents for such types -, stays there, and nothing on the way panics
+/// or differs between debug and release (C20).
+#[derive(Animate, Clone, Debug, Default, PartialEq)]
+pub struct WideInts {
+    #[animate]
+    pub up: u64,
+    #[animate]
+    pub down: u64,
+    #[animate]
+    pub signed: i64,
+    #[animate]
+    pub size: usize,
+    #[animate]
+    pub fine: f64,
+    pub keep: u64,
+}
+
+pub const WIDE_START: WideInts = WideInts { up: 5, down: 1_000_000_007, signed: -1_000_000_007, size: 3, fine: 0.1, keep: 0xFEED };
+pub const WIDE_END: WideInts = WideInts { up: 1_000_000_007, down: 5, signed: 4_000_000_009, size: 2_000_000_011, fine: 0.7, keep: 0xFEED };
+
+/// Returns (clause, description) of the first violated clause, and feeds every observation to
+/// `observe` (for the cross-profile comparison).
+pub fn wide_ints_probe(ops: &[(Op, Fault)], variant: u64, observe: &mut dyn FnMut(&WideInts, bool)) -> Option<(&'static str, String)> {
+    let reverse = variant & 1 == 1;
+    let repeat = if variant & 2 == 2 { Repeat::Times(2) } else { Repeat::None };
+    let delay = if variant & 4 == 4 { 0.5 } else { 0.0 };
+    let kf = |v: &WideInts, pos: f32| WideInts::keyframe(pos).up(v.up).down(v.down).signed(v.signed).size(v.size).fine(v.fine);
+    let mid = WideInts { up: 16_777_217, down: 33_554_435, signed: -16_777_219, size: 16_777_221, fine: 0.3, keep: 0 };
+    let tl = || {
+        WideInts::timeline()
+            .duration_seconds(1.0)
+            .delay_seconds(delay)
+            .reverse(reverse)
+            .repeat(repeat)
+            .keyframe(kf(&WIDE_START, 0.0))
+            .keyframe(kf(&mid, 0.5))
+            .keyframe(kf(&WIDE_END, 1.0))
+    };
+    let terminal = if reverse { WIDE_START } else { WIDE_END };
+    // (`Lerp` documents that primitives are interpolated in 32-bit floating point, "so there may
+    // be some precision loss" for wider types: a value is on a keyframe if it is the keyframe's
+    // value or that value as the nearest f32)
+    let same = |v: &WideInts, t: &WideInts| {
+        (v.up == t.up || v.up == (t.up as f32) as u64)
+            && (v.down == t.down || v.down == (t.down as f32) as u64)
+            && (v.signed == t.signed || v.signed == (t.signed as f32) as i64)
+            && (v.size == t.size || v.size == (t.size as f32) as usize)
+            && (v.fine == t.fine || v.fine == (t.fine as f32) as f64)
+            && v.keep == t.keep
+    };
+    // a bare timeline far beyond its end, and exactly on its keyframes
+    let bare = TimelineBuilder::build(tl());
+    let mut v = WIDE_START.clone();
+    bare.update(&mut v, 1.0e6);
+    observe(&v, true);
+    if !same(&v, &terminal) {
+        return Some(("terminal-values", format!("wide properties: Timeline::update far beyond the end gives {v:?}, the terminal keyframe is {terminal:?}")));
+    }
+    let mut anim = StateAnimatorBuilder::new()
+        .from_state(Sh::C)
+        .from_values(WIDE_START.clone())
+        .on(Sh::A, tl())
+        .build();
+    anim.set_state(&Sh::A);
+    let mut rested: Option<WideInts> = None;
+    let mut step = |anim: &mut dyn StateAnimator<State = Sh, Values = WideInts>, what: String, rested: &mut Option<WideInts>| -> Option<(&'static str, String)> {
+        let v = anim.current_values().clone();
+        let ended = anim.is_ended();
+        observe(&v, ended);
+        if !v.fine.is_finite() {
+            return Some(("non-finite-value", format!("wide properties: {what}: fine = {}", v.fine)));
+        }
+        if anim.current_state() == &Sh::A {
+            if ended && !same(&v, &terminal) {
+                return Some(("terminal-values", format!("wide properties: {what}: is_ended but the values are {v:?}, the terminal keyframe is {terminal:?}")));
+            }
+            if let Some(r) = rested {
+                if &v != r {
+                    return Some(("values-moved-after-end", format!("wide properties: {what}: values moved after the end from {r:?} to {v:?}")));
+                }
+            }
+            if ended && rested.is_none() {
+                *rested = Some(v);
+            }
+        } else {
+            *rested = None;
+        }
+        None
+    };
+    for (i, (op, _)) in ops.iter().enumerate() {
+        match op {
+            Op::Advance(dt) => anim.advance(*dt),
+            // (A is the only animated state: leaving it freezes the animation, coming back resumes it)
+            Op::SetState(s) => anim.set_state(if *s % 2 == 0 { &Sh::A } else { &Sh::C }),
+        }
+        if let Some(d) = step(&mut anim, format!("operation {i} ({op:?})"), &mut rested) {
+            return Some(d);
+        }
+    }
+    anim.set_state(&Sh::A);
+    anim.advance(1.0e6);
+    if !anim.is_ended() {
+        return Some(("not-ended-at-or-after-total", "wide properties: a finite animation is not over after a further 1e6 s".into()));
+    }
+    step(&mut anim, "a final advance of 1e6 s".into(), &mut rested)
+}
